@@ -189,16 +189,9 @@ def r3_anchoring(ctx):
         ip, fn = an.ip, an.fn
         ntrue = 0
         kinds = set()
-        for o in an.outs:
-            if o.kind != 'ret':
-                continue   # slice bounds of the cuts depend on BasePattern::len facts that are not modelled
-            if o.value == FALSE:
-                continue
-            if o.value != TRUE:
-                ctx.unanalysable('C16.R3', 'C16.R3/concat_inclusion/boolean-leaf', fn.path, fn.site(), {'returned': T.show(ip.to_term(o.state, o.value))[:120]}, cfg)
-                continue
+        # (panics are not looked at: slice bounds of the cuts depend on BasePattern::len facts that are not modelled)
+        for st in true_leaves(ip, an.outs):
             ntrue += 1
-            st = o.state
             atoms = []      # (positive?, element term)
             matched = {}    # (which, pattern term) -> (u arg, v arg)
             for f in st.pc:
